@@ -2,6 +2,7 @@ import Orx.KSRun
 import Orx.GenThms.Slice
 import Orx.GenThms.Range
 import Orx.GenThms.Own
+import Orx.GenThms.Iter
 /-! # C10 into_seq_iter returns exactly the undelivered remainder, in order -/
 namespace Orx.Props.C10
 open Orx Orx.KS
@@ -79,5 +80,13 @@ theorem source_arr_into_seq_is_remainder (N f : Nat) (o : OSt) (ρ' : Type) (hc 
     simp [this, KS.rangeList, RSO.rangeList]
 
 end SourceOwn
+
+/-- **`into_seq_iter` of the wrapper as in the source**: `self.iter.into_inner()` — the wrapped iterator is handed back as it
+is, without any atomic access and without polling it; what it yields from there on is what it had not yet yielded
+(the model's `intoseq` step of `IW/Full.lean`: the rest of the script from the position reached). Together with the extracted
+fact that `into_seq_iter` and `mut_iter` are the only functions that touch the `UnsafeCell` (`Props/C14`) -/
+theorem source_wrapper_into_seq_is_the_wrapped_iterator (init : Option Nat) (s : RS.St) :
+    Gen.Iter.into_seq_iter (GenThms.iter init) s = .ok {} s :=
+  GenThms.iter_into_seq_iter init s
 
 end Orx.Props.C10
